@@ -74,6 +74,16 @@ def run(chk, facts, tier):
                     if not any(x.d.get('call') and 'random' in (x.cn or '') for x in val.walk()):
                         ok, why = False, 'candidate is not drawn from the random number generator'
         chk.instance('passkey-range', fn, 'create_passkey value %s' % var, ok, '' if ok else why, key='create_passkey')
+        if ok and var is not None:
+            # uniform over 0..999999: a candidate is rejected exactly when it exceeds 999999 - any further rejection removes values from the range
+            loops = [n for n in fn.body.walk() if n.k in ('DoStmt', 'WhileStmt', 'ForStmt') and n.child('cond') is not None and mentions(n.child('cond'), var)]
+            if len(loops) == 1:
+                c = strip_casts(loops[0].child('cond'))
+                rej = atoms(c, True)
+                single = len(rej) >= 1 and all(((is_name(l, var) and op == '>') or (not isinstance(r, int) and is_name(r, var) and op == '<')) for l, op, r in rej if not (not isinstance(l, int) and resolve_local(l) is not None))
+                disj = c.k == 'BinaryOperator' and c.o == '||'
+                oku = single and not disj
+                chk.instance('passkey-range', fn, 'rejection condition of the sampling loop: %s' % c.text()[:60], oku, '' if oku else 'candidates are also rejected for another reason than exceeding 999999 (%s): some six digit values are never generated, the passkey is not uniform over 000000..999999' % c.text()[:60], node=loops[0], key='create_passkey rejection')
         # uniformity of the candidate: every one of the k low bits comes from exactly one RNG draw, 2^k > 999999
         if var is not None and ok:
             import re as _re
